@@ -46,17 +46,14 @@ func (f *FaultController) VerifyFaultValidity() error {
 
 func (f *FaultController) VerifyFaultSignature() error {
 	state := blockchain.GetInstance().GetPriorStates()
-	posterior := blockchain.GetInstance().GetPosteriorStates()
 
+	// GP 10.4: k = (kappa U lambda) \ psi_o of the PRIOR state. The prior offenders are
+	// rejected by ExcludeOffenders (offender_already_reported); psi'_o has not been
+	// written for this block yet and must not be consulted here.
 	validators := append(state.GetKappa(), state.GetLambda()...)
 	validKeySet := make(map[types.Ed25519Public]struct{})
 	for _, v := range validators {
 		validKeySet[v.Ed25519] = struct{}{}
-	}
-
-	psiO := posterior.GetPsiO()
-	for _, offender := range psiO {
-		delete(validKeySet, offender)
 	}
 
 	for _, vote := range f.Faults {
